@@ -1026,6 +1026,13 @@ def affixes(run, m, F, E, L):
                             continue
                         if st3.is_eq0(d9) is False or st3.find_model([d9], lambda vv: vv[0] != 0) is not None:
                             return True
+                    # the length: wrong only with a model of this path (|x| <= size included) in which fewer or more than |x| units
+                    # are compared - a text re-measured up to an embedded NUL gives one, a size clamped to the string does not
+                    dl = cn - nlen
+                    if st3.is_eq0(dl) is not True:
+                        s4 = st3.clone()
+                        if s4.assume_ge0(s - nlen) and s4.find_model([dl, s - nlen], lambda vv: vv[0] != 0 and vv[1] >= 0) is not None:
+                            return True
                     return False
 
                 def good_cmp(st3):
